@@ -87,6 +87,12 @@ def handle : List String → Verdict
     { predfail := if (gotS.splitOn ",").all (· == sentS) then none else
         some s!"{sentS} identical reload events were broadcast to connected, promptly reading clients; they received {gotS}",
       nontrivial := true, tags := ["burst"], sig := "burst" }
+  | ["viaproxy", level, headersS, sentS, gotS] =>
+    { predfail :=
+        if headersS != "1" then some s!"through the development proxy (logger at {level} level) the event stream's response headers did not reach the client within 2 s"
+        else if gotS != sentS then some s!"through the development proxy (logger at {level} level) a connected client received {gotS} of {sentS} reload events within 2 s each"
+        else none,
+      nontrivial := true, tags := ["via-proxy"], sig := "viaproxy" }
   | ["stress", statusH, sentS, missingS] =>
     match hexField statusH with
     | some status =>
